@@ -125,8 +125,10 @@ def check(run):
                 pred = sorted(e for e, kq in keep.items() if kq)
                 unknown = [e for e, kq in keep.items() if kq is None]
                 impl = sorted(c["dot1"][1])
-                if not unknown and pred != impl:
-                    bad = f"refined edges differ: model+z3 {pred} impl {impl}"
+                # see checks/c05.py: the implementation's solver has a 2 s wall-clock budget and keeps the edge when it
+                # runs out, so only "satisfiable => kept" and "nothing outside the initial graph" are timing independent
+                if not (set(pred) <= set(impl) <= set(keep.keys())):
+                    bad = f"refined edges differ: edges with a satisfiable query {pred}, initial {sorted(keep.keys())}, impl {impl}"
                 elif unknown:
                     run.notes.append(f"z3 gave no answer for {len(unknown)} queries of code {c['code'].hex()}")
         if bad:
